@@ -119,6 +119,34 @@ CHECKS = {
                       "are reported as a statistic only (not observable behaviour)",
         "assumptions": ["all FORMS/SYNTAX/PAIRS entries are valid TypeScript 5.x"],
     },
+    "C06": {
+        "engines": NATIVE,
+        "level": "exploration",
+        "rule": "programs: 78 call paths (plain / function-expression / arrow / closure calls, object, class, static and super methods, "
+                "constructors incl. derived and Reflect.construct, field initialisers, bound functions, call/apply/Reflect.apply, getters "
+                "and setters of every flavour, valueOf/toString/Symbol.toPrimitive coercions, proxy traps, every callback-taking array / "
+                "string / JSON / Map / Set / Promise built-in, tagged templates, custom iterators through for-of / spread / destructuring, "
+                "generators incl. yield*, default parameters, computed keys, Symbol.hasInstance, async functions) x {control, a "
+                "200000-iteration loop in the callee, unbounded recursion through the path, recursion to depth 20000 (thorough: 100000)}; "
+                "17 non-terminating programs; 66 length/count-taking built-ins x 15 size arguments up to 2^53, NaN, negative, fractional "
+                "and infinite; 19 recursive built-ins on data nested 100..100000 (thorough: 10^6) deep. Every program runs in a forked "
+                "child under a host that counts steps and reads call_depth() before every step. A case is non-trivial when the child "
+                "answered or died (not cut by the wall-clock watchdog); cases are distinct by construction",
+        "exhaustive": "every call path x 4 variants; every size-taking built-in x 15 sizes",
+        "floor": {"quick": 1000, "thorough": 1000},
+        "unit_timeout": {"default": 1500},
+        "technique": "runtime monitoring: H3 per-step instruction counter and native re-entry sites read by a careful host loop, "
+                     "process-exit oracle in forked children under RLIMIT_AS, in-child watchdog deciding on the instruction counter",
+        "level_text": "One step() may execute at most 10000 VM instructions; the host must be able to stop every non-terminating "
+                      "program through its step or depth budget; recursion through any path must either be visible to call_depth() or "
+                      "end in a catchable error; no size argument or nested datum may kill the process. Paths on which tsrun re-enters "
+                      "the VM natively are ledgered per (native site, path), so a path that stops being trampolined is reported.",
+        "level_note": "built-ins whose own loop is long but executes no VM instruction (regex backtracking, repeat, join over 2^31 holes) "
+                      "are judged on crash/abort only; children run with RLIMIT_AS = 4 GiB and the 8 MiB main-thread stack, so 'impossible "
+                      "allocation' means impossible under that limit; a wall-clock cut is inconclusive",
+        "assumptions": ["a host gives the interpreter an 8 MiB stack and at most 4 GiB of address space",
+                        "10000 VM instructions per step() is far above any single opcode's legitimate work (observed maximum on trampolined paths: 1)"],
+    },
     "C07": {
         "engines": NATIVE,
         "level": "exploration",
